@@ -552,7 +552,9 @@ func ruleLossyConv(p *Prog, r *Report) {
 					probs = append(probs, fmt.Sprintf("an argument v of type %s is stored as %s: something other than conversions lies between the argument and the stored element", tn, s.String()))
 				}
 			}
-			if len(stored) == 0 {
+			if len(stored) == 0 && tn == "string" && madeWithLength(in, valuesPath) {
+				// the slot of a variable keeps the zero value the slice was made with
+			} else if len(stored) == 0 {
 				probs = append(probs, "nothing is appended to the node's values for an argument of type "+tn)
 			}
 			if len(probs) > 0 {
@@ -864,4 +866,23 @@ func fillASCIIByEvaluation(p *Prog, fn *ssa.Function) (detail string, decided, g
 		}
 	}
 	return "evaluated with an arbitrary (symbolic) string in the caller's map: NewASCIINode is called with that very string", true, true
+}
+
+// madeWithLength reports whether the modelled slice at path was created by a
+// make with a length (its elements start as zero values) rather than grown by
+// append.
+func madeWithLength(in *Interp, path string) bool {
+	for _, fn := range in.Prog.Funcs {
+		for _, b := range fn.Blocks {
+			for _, instr := range b.Instrs {
+				if ms, ok := instr.(*ssa.MakeSlice); ok && strings.HasPrefix(path, allocName(ms)) {
+					if c, ok := ms.Len.(*ssa.Const); ok && constVal(c).K == KInt && constVal(c).I.Sign() == 0 {
+						return false
+					}
+					return true
+				}
+			}
+		}
+	}
+	return false
 }
